@@ -470,6 +470,12 @@ def hasPrefix (want st : List Ty) : Bool := st.take want.length == want
 
 def btTypes (bt : Option Ty) : List Ty := bt.toList
 
+/-- a body may end unreachable, or with exactly the wanted types -/
+def endOK (want : List Ty) : Option (Option (List Ty)) → Bool
+  | none => false
+  | some none => true
+  | some (some st') => st' == want
+
 mutual
 /-- `none`: ill typed; `some none`: well typed and the end is unreachable; `some (some st)`: stack afterwards -/
 def checkI (C : Ctx) (st : List Ty) : FI → Option (Option (List Ty))
@@ -518,26 +524,19 @@ def checkI (C : Ctx) (st : List Ty) : FI → Option (Option (List Ty))
       if c = .i32 ∧ hasPrefix ts s ∧ ls.all (fun l => C.labels[l]? == some ts) then some none else none
     | _, _ => none
   | .block bt body =>
-    match checkS { C with labels := btTypes bt :: C.labels } [] body with
-    | none => none
-    | some none => some (some (btTypes bt ++ st))
-    | some (some st') => if st' = btTypes bt then some (some (btTypes bt ++ st)) else none
+    if endOK (btTypes bt) (checkS { C with labels := btTypes bt :: C.labels } [] body) then
+      some (some (btTypes bt ++ st))
+    else none
   | .loop bt body =>
-    match checkS { C with labels := [] :: C.labels } [] body with
-    | none => none
-    | some none => some (some (btTypes bt ++ st))
-    | some (some st') => if st' = btTypes bt then some (some (btTypes bt ++ st)) else none
+    if endOK (btTypes bt) (checkS { C with labels := [] :: C.labels } [] body) then
+      some (some (btTypes bt ++ st))
+    else none
   | .ite bt th el =>
     match st with
     | c :: s =>
-      if c = .i32 then
-        let C' := { C with labels := btTypes bt :: C.labels }
-        let ok := fun (r : Option (Option (List Ty))) =>
-          match r with
-          | none => false
-          | some none => true
-          | some (some st') => st' == btTypes bt
-        if ok (checkS C' [] th) && ok (checkS C' [] el) then some (some (btTypes bt ++ s)) else none
+      if c = .i32 ∧ endOK (btTypes bt) (checkS { C with labels := btTypes bt :: C.labels } [] th) = true ∧
+          endOK (btTypes bt) (checkS { C with labels := btTypes bt :: C.labels } [] el) = true then
+        some (some (btTypes bt ++ s))
       else none
     | [] => none
 def checkS (C : Ctx) (st : List Ty) : List FI → Option (Option (List Ty))
@@ -552,10 +551,6 @@ end
 def Fn.ctx (f : Fn) : Ctx :=
   { locals := f.params ++ f.locals, labels := [f.results.reverse], results := f.results.reverse }
 
-def wellTyped (f : Fn) : Bool :=
-  match checkS f.ctx [] f.body with
-  | none => false
-  | some none => true
-  | some (some st) => st == f.results.reverse
+def wellTyped (f : Fn) : Bool := endOK f.results.reverse (checkS f.ctx [] f.body)
 
 end Wz.Model.FlatLower
